@@ -516,3 +516,24 @@ func FileReaddirnames(osf *os.File, n int) ([]string, error) {
 	}
 	return out, nil
 }
+
+// mEntry is the fs.DirEntry of a regular file of the model.
+type mEntry struct{ info mInfo }
+
+func (e mEntry) Name() string               { return e.info.name }
+func (e mEntry) IsDir() bool                { return false }
+func (e mEntry) Type() fs.FileMode          { return 0 }
+func (e mEntry) Info() (fs.FileInfo, error) { return e.info, nil }
+
+// ReadDirEntries is os.ReadDir: the directory's files sorted by name.
+func ReadDirEntries(dir string) ([]os.DirEntry, error) {
+	infos, err := ReadDir(dir)
+	if err != nil {
+		return nil, err
+	}
+	out := make([]os.DirEntry, len(infos))
+	for i, in := range infos {
+		out[i] = mEntry{in.(mInfo)}
+	}
+	return out, nil
+}
